@@ -103,25 +103,37 @@ func runTrial(k *vf.Case) {
 			h.rec = func(ctx context.Context, v int64, o metric.MeasurementOption) { c.Add(ctx, v, o.(metric.AddOption)) }
 		case 1:
 			c, _ := m.Float64Counter(name)
-			h.rec = func(ctx context.Context, v int64, o metric.MeasurementOption) { c.Add(ctx, float64(v), o.(metric.AddOption)) }
+			h.rec = func(ctx context.Context, v int64, o metric.MeasurementOption) {
+				c.Add(ctx, float64(v), o.(metric.AddOption))
+			}
 		case 2:
 			c, _ := m.Int64UpDownCounter(name)
 			h.rec = func(ctx context.Context, v int64, o metric.MeasurementOption) { c.Add(ctx, v, o.(metric.AddOption)) }
 		case 3:
 			c, _ := m.Float64UpDownCounter(name)
-			h.rec = func(ctx context.Context, v int64, o metric.MeasurementOption) { c.Add(ctx, float64(v), o.(metric.AddOption)) }
+			h.rec = func(ctx context.Context, v int64, o metric.MeasurementOption) {
+				c.Add(ctx, float64(v), o.(metric.AddOption))
+			}
 		case 4:
 			c, _ := m.Int64Histogram(name)
-			h.rec = func(ctx context.Context, v int64, o metric.MeasurementOption) { c.Record(ctx, v, o.(metric.RecordOption)) }
+			h.rec = func(ctx context.Context, v int64, o metric.MeasurementOption) {
+				c.Record(ctx, v, o.(metric.RecordOption))
+			}
 		case 5:
 			c, _ := m.Float64Histogram(name)
-			h.rec = func(ctx context.Context, v int64, o metric.MeasurementOption) { c.Record(ctx, float64(v), o.(metric.RecordOption)) }
+			h.rec = func(ctx context.Context, v int64, o metric.MeasurementOption) {
+				c.Record(ctx, float64(v), o.(metric.RecordOption))
+			}
 		case 6:
 			c, _ := m.Int64Gauge(name)
-			h.rec = func(ctx context.Context, v int64, o metric.MeasurementOption) { c.Record(ctx, v, o.(metric.RecordOption)) }
+			h.rec = func(ctx context.Context, v int64, o metric.MeasurementOption) {
+				c.Record(ctx, v, o.(metric.RecordOption))
+			}
 		default:
 			c, _ := m.Float64Gauge(name)
-			h.rec = func(ctx context.Context, v int64, o metric.MeasurementOption) { c.Record(ctx, float64(v), o.(metric.RecordOption)) }
+			h.rec = func(ctx context.Context, v int64, o metric.MeasurementOption) {
+				c.Record(ctx, float64(v), o.(metric.RecordOption))
+			}
 		}
 		mu.Lock()
 		syncs = append(syncs, h)
